@@ -292,16 +292,22 @@ func genQuant(t *rapid.T) (min, max int, q string) {
 	}
 }
 
+// genLit: successive literals walk through the variables (offset drawn), so that patterns use several
+// variables although rapid favours small draws.
 func genLit(t *rapid.T, syms []string) Pat {
-	return Pat{K: "lit", S: rapid.SampledFrom(syms).Draw(t, "sym")}
+	k := litCount[t]
+	litCount[t] = k + 1
+	return Pat{K: "lit", S: syms[(k+rapid.IntRange(0, len(syms)-1).Draw(t, "sym"))%len(syms)]}
 }
+
+var litCount = map[*rapid.T]int{}
 
 func genPat(t *rapid.T, depth int, syms []string) Pat {
 	if depth <= 0 {
 		return genLit(t, syms)
 	}
-	switch rapid.IntRange(1, 15).Draw(t, "node") {
-	case 1, 2, 3:
+	switch rapid.IntRange(2, 15).Draw(t, "node") {
+	case 2, 3:
 		return genLit(t, syms)
 	case 4, 5, 6:
 		n := rapid.IntRange(2, 3).Draw(t, "nseq")
@@ -339,17 +345,16 @@ func genPat(t *rapid.T, depth int, syms []string) Pat {
 
 func genCase(t *rapid.T) Case {
 	var c Case
-	nsym := []int{1, 2, 2, 3, 3, 4}[rapid.IntRange(0, 5).Draw(t, "nsym")]
+	litCount[t] = 0
+	defer delete(litCount, t)
+	nsym := []int{2, 3, 2, 4, 3, 1}[rapid.IntRange(0, 5).Draw(t, "nsym")]
 	syms := allSyms[:nsym]
 	// top level: mostly a sequence, so that most patterns need several rows
 	if rapid.IntRange(0, 3).Draw(t, "top") > 0 {
-		n := rapid.IntRange(1, 3).Draw(t, "ntop")
+		n := rapid.IntRange(2, 4).Draw(t, "ntop")
 		p := Pat{K: "seq"}
 		for i := 0; i < n; i++ {
 			p.C = append(p.C, genPat(t, 2, syms))
-		}
-		if n == 1 {
-			p = p.C[0]
 		}
 		c.Pattern = p
 	} else {
@@ -388,21 +393,21 @@ func genCase(t *rapid.T) Case {
 	}
 	for _, s := range usedSyms {
 		d := Def{Sym: s}
-		switch rapid.IntRange(-1, 9).Draw(t, "defkind") {
-		case -1, 0:
+		switch rapid.IntRange(1, 11).Draw(t, "defkind") {
+		case 10, 11:
 			continue // undefined: always true
 		case 1, 2, 3:
-			d.Kind, d.C = "gt", rapid.IntRange(0, 6).Draw(t, "c")
+			d.Kind, d.C = "gt", rapid.IntRange(0, 5).Draw(t, "c")
 		case 4, 5:
-			d.Kind, d.C = "lt", rapid.IntRange(3, 9).Draw(t, "c")
+			d.Kind, d.C = "lt", 9-rapid.IntRange(0, 5).Draw(t, "c")
 		case 6:
 			d.Kind = "gtprev"
 		case 7:
 			d.Kind = "ltprev"
 		case 8:
-			d.Kind, d.C, d.Ref = "sumlt", rapid.IntRange(1, 25).Draw(t, "c"), rapid.SampledFrom(usedSyms).Draw(t, "ref")
-		default:
-			d.Kind, d.C = "countlt", rapid.IntRange(2, 6).Draw(t, "c")
+			d.Kind, d.C, d.Ref = "sumlt", 30-rapid.IntRange(0, 28).Draw(t, "c"), rapid.SampledFrom(usedSyms).Draw(t, "ref")
+		case 9:
+			d.Kind, d.C = "countlt", 7-rapid.IntRange(0, 5).Draw(t, "c")
 		}
 		c.Defs = append(c.Defs, d)
 	}
@@ -423,13 +428,11 @@ func genCase(t *rapid.T) Case {
 	lens := make([]int, nparts)
 	total := 0
 	for i := range lens {
-		lens[i] = rapid.IntRange(0, 20).Draw(t, "plen")
-		if lens[i] > 14 {
-			lens[i] = 14
-		}
+		// spread over 0..14 although rapid favours small draws (0 still shrinks to an empty partition)
+		lens[i] = rapid.IntRange(0, 1<<16).Draw(t, "plen") * 7919 % 15
 		total += lens[i]
 	}
-	tsmode := rapid.IntRange(0, 5).Draw(t, "tsmode")
+	tsmode := rapid.IntRange(0, 7).Draw(t, "tsmode")
 	if calmClock && tsmode == 2 {
 		tsmode = 0
 	}
@@ -486,21 +489,17 @@ func genCase(t *rapid.T) Case {
 		} else {
 			g := rapid.IntRange(0, 9).Draw(t, "gap")
 			if calmClock {
-				g = g % 6 // <= 1 s per step: 42 rows stay far inside every generated WITHIN
+				g = g % 8 // <= 1 s per step: 42 rows stay far inside every generated WITHIN
 			}
 			switch g {
-			case 0, 1, 2:
+			case 0, 1, 2, 3:
 				ts += 1
-			case 3, 4, 5:
+			case 4, 5, 6, 7:
 				ts += 1000
-			case 6:
-				ts += 600000
-			case 7:
-				ts += 1800000
 			case 8:
-				ts += rapid.SampledFrom([]int64{3599999, 3600000, 3600001}).Draw(t, "edge")
+				ts += rapid.SampledFrom([]int64{600000, 1800000}).Draw(t, "mid")
 			default:
-				ts += 7200000
+				ts += rapid.SampledFrom([]int64{3599999, 3600000, 3600001, 7200000}).Draw(t, "edge")
 			}
 		}
 		c.Events = append(c.Events, Event{ID: id, P: p, V: rapid.IntRange(0, 9).Draw(t, "v"), TS: ts})
